@@ -167,6 +167,8 @@ def cop(op):
         return "OSnapAll"
     if t == "eq":
         return "OEq %d %d %s" % (op[1], op[2], cnum(op[3]))
+    if t == "pure":
+        return "OEq %d %d %s" % (op[1], op[2], cnum(0.0))     # (a constant observation in the identity layer)
     if t == "fillnp":
         rows, w = op[2], op[3]
         ws = w if isinstance(w, list) else [w] * len(rows)
@@ -199,6 +201,7 @@ def csrc(sd, rec):
         _CODEIDS[code] = len(_CODEIDS) + 1
     if sd["form"] == "def":
         return "(SDef %s %d %s)" % (cstr(sd.get("fname", "myfn")), _CODEIDS[code], e)
+    # "lam" and "lamd" (a lambda with a default argument) are lambdas for the wrappers
     return "(SLam %d %s)" % (_CODEIDS[code], e)
 
 
@@ -213,6 +216,9 @@ def cfop(op):
             ds = [d[1] for d in ds]
             rec = "dict"
         return "FWrap %s %s %s" % (csrc(sd, rec), cwops(wops), clist(clist(cvalue(v) for v in d) for d in ds))
+    if op[0] == "wraparr":
+        _, sd, wops, calls = op
+        return "FWrap %s %s []" % (csrc(sd, "dict"), cwops(wops))
     if op[0] == "feq":
         _, sd1, w1, sd2, w2, rec = op
         return "FEq %s %s %s %s" % (csrc(sd1, rec), cwops(w1), csrc(sd2, rec), cwops(w2))
